@@ -526,9 +526,16 @@ def rule_filters_applied(ck):
     neither method trusts remembered state instead of filtering (shared C04-D2 narrowing, C04-D7 paths)"""
     from . import c04
     ck.clause('D5 (shared C04-D2/D7: filter applies every statement on every path)')
+    c04.rule_operators(ck)
     c04.rule_narrowing(ck)
     c04.rule_paths(ck)
     c04.rule_every_path_selects(ck)
+    # the expected rates are the mean of the catalogs' space-magnitude counts: every event counted once, in the bin the kernel puts it
+    from . import c03, c02
+    ck.clause('D7 (shared C03-D1/D2, C02-D4: what is averaged are duplicate-safe counts binned by the kernel)')
+    c03.rule_mag_sentinel(ck)
+    c03.rule_accumulation(ck)
+    c02.rule_callsites(ck)
 
 
 RULES = [rule_writers, rule_init, rule_next, rule_getters, rule_complete_passes, rule_consumers, rule_tolerance_shared, rule_rates_view, rule_precheck, rule_filters_applied]
